@@ -304,6 +304,71 @@ theorem string_registration_misses_set_item :
     destroys (.str "Groups.Changed") "Groups.GroupSet" = false ∧ destroys (.str "Groups.Changed") "Groups.Changed" = true := by
   decide
 
+/-! ## 5. Lookups made from inside the callbacks of an edit (finding F74)
+
+The model of one edit at the granularity of its announcements (`Kern.announce`): the dict has its new contents, then
+each notification of `posts` is posted in order; the Groups object's own callback destroys the tables when the
+registration `reg` lists the notification, then an observer looks kerning up. -/
+
+/-- **`in_callback_lookups_current`.**  When the registration lists EVERY notification the edit posts (what the
+regenerated table says of the current source: `gen_eviction_as_modelled`), then - whatever was cached before the
+edit, current or not - every lookup an observer makes inside the callback of ANY of those notifications is the
+lookup over the NEW groups (`Ref.find` on the contents after the edit), and the tables left behind are current. -/
+theorem in_callback_lookups_current (reg : Destr) (pairs : List Pair) (d : Int) (s : State) (g' : GroupsD)
+    (posts : List String) (hreg : ∀ n ∈ posts, destroys reg n = true) (hne : posts ≠ []) :
+    (∀ e ∈ (editObserved reg pairs d s g' posts).2,
+        e.2 = pairs.map (fun p => Ref.find { s.c with groups := g' } p d)) ∧
+    CacheOK (editObserved reg pairs d s g' posts).1 := by
+  unfold editObserved
+  generalize hs0 : ({ s with c := { s.c with groups := g' } } : State) = s0
+  have hc : s0.c = { s.c with groups := g' } := by rw [← hs0]
+  rw [← hc]
+  clear hs0 hc
+  -- from the first post on the cache is current; before it, it may be anything
+  have key : ∀ (posts : List String) (s0 : State), (∀ n ∈ posts, destroys reg n = true) →
+      (∀ e ∈ (announce reg pairs d s0 posts).2, e.2 = pairs.map (fun p => Ref.find s0.c p d)) ∧
+      (posts ≠ [] → CacheOK (announce reg pairs d s0 posts).1) := by
+    intro posts
+    induction posts with
+    | nil => intro s0 _; exact ⟨fun e he => by simp [announce] at he, fun h => absurd rfl h⟩
+    | cons n rest ih =>
+      intro s0 hreg
+      have hn : destroys reg n = true := hreg n (List.mem_cons_self)
+      have hrest : ∀ m ∈ rest, destroys reg m = true := fun m hm => hreg m (List.mem_cons_of_mem _ hm)
+      simp only [announce, hn, if_true]
+      have hev : CacheOK (evict s0) := cacheOK_empty s0.c
+      obtain ⟨h1, h2, h3⟩ := findMany_spec (evict s0) hev d pairs
+      have hc0 : (evict s0).c = s0.c := rfl
+      obtain ⟨ih1, ih2⟩ := ih (findMany (evict s0) d pairs).1 hrest
+      rw [h2, hc0] at ih1
+      refine ⟨?_, ?_⟩
+      · intro e he
+        cases he with
+        | head => simpa [hc0] using h1
+        | tail _ he' => exact ih1 e he'
+      · intro _
+        by_cases hr : rest = []
+        · subst hr; simpa [announce] using h3
+        · exact ih2 hr
+  exact ⟨(key posts s0 hreg).1, (key posts s0 hreg).2 hne⟩
+
+/-- the registration of the current source has that property for every edit a `Groups` object can announce -/
+theorem current_registration_covers_every_post :
+    ∀ e ∈ Gen.KernTables.groupsFactories, ∀ posts : List String, (∀ n ∈ posts, n ∈ Gen.KernTables.groupsPosts) →
+      ∀ n ∈ posts, destroys e.2.2 n = true := by
+  intro e he posts hp n hn
+  exact gen_eviction_as_modelled.1 e he n (hp n hn)
+
+/-- **F74, the witness.**  With the registration the source used to have (the parenthesised string
+`("Groups.Changed")`), a table cached before `groups["public.kern1.A"] = ["A", "Q"]` survives the first announcement:
+the observer of `Groups.GroupSet` is answered from the OLD groups (0 instead of -10), the observer of
+`Groups.Changed` correctly. -/
+theorem string_registration_in_callback_violated :
+    let s0 : State := (findOne { c := { groups := [("public.kern1.A", ["A"])], kerning := [(("public.kern1.A", "B"), -10)] } } ("Q", "B") 0).1
+    (editObserved (.str "Groups.Changed") [("Q", "B")] 0 s0 [("public.kern1.A", ["A", "Q"])] ["Groups.GroupSet", "Groups.Changed"]).2
+      = [("Groups.GroupSet", [0]), ("Groups.Changed", [-10])] := by
+  decide
+
 /-! ## Non-vacuity -/
 
 /-! `gEx`, `kEx`: the example font of `Spec/Kern.lean` (ufoLib's doctest data plus an exception pair). -/
